@@ -132,7 +132,7 @@ def run(ctx):
 
 MANIFEST = {
     "category": "other",
-    "technique": "await/cancellation model (E5) over every impl Processor::next + pairing rules for queue processors + select!-structure rule for the buffer task",
+    "technique": "await/cancellation model (E5) over every impl Processor::next + pairing rules for queue processors + select!-structure rule for the buffer task; check-before-wait and FIFO-push rules for queue processors",
     "text": "Static over all suspension points of every processor's `next`: no Yield between a take event and the return/hand-over of the item; notify pairing and re-check loops of queue processors; structure of the buffered layer's select!. Decides cancellation safety and wake pairing as structure; does not decide exactly-once over all interleavings.",
     "note": "Trusted: rustc MIR, driver, rule engine; tokio Notify (notify_one stores a permit), select!, mpsc semantics as axioms.",
 }
